@@ -360,14 +360,25 @@ class Ownership:
                 self.add("C04", "R03.3", "%s:bp-value(%s)" % (f.qualname, bp), False, f.loc(w),
                          "back-pointer %s assigned %s: must be the owning node (self._node) or None"
                          % (bp, unparse(w.value)))
+            def elem_of(w_: ast.Assign) -> Optional[str]:
+                t_ = [t for t in w_.targets if isinstance(t, ast.Attribute) and t.attr == bp][0]
+                return t_.value.id if isinstance(t_.value, ast.Name) else None
             if a:
                 attach.append(f)
-                for w in a:
-                    self._attach(rel, f, w)
+                # the same write on several branches (duplicated code) is one obligation: some
+                # write of the group on every path
+                if len({elem_of(w) for w in a}) == 1:
+                    self._attach(rel, f, a[0], a)
+                else:
+                    for w in a:
+                        self._attach(rel, f, w)
             if d:
                 detach.append(f)
-                for w in d:
-                    self._detach(rel, f, w)
+                if len({elem_of(w) for w in d}) == 1:
+                    self._detach(rel, f, d[0], d)
+                else:
+                    for w in d:
+                        self._detach(rel, f, w)
         self.count("attach_primitives", len(attach))
         self.count("detach_primitives", len(detach))
         if not attach or not detach:
@@ -415,7 +426,7 @@ class Ownership:
     def _calls(self, cfg: CFG, pred) -> Set[int]:
         return cfg.nodes_where(lambda n: isinstance(n, ast.Call) and pred(n))
 
-    def _attach(self, rel: Relation, f: FuncInfo, w: ast.Assign) -> None:
+    def _attach(self, rel: Relation, f: FuncInfo, w: ast.Assign, group: Optional[List[ast.Assign]] = None) -> None:
         self.functions.add(f.qualname)
         bp = rel.backptr
         me = f.self_name or "self"
@@ -430,12 +441,13 @@ class Ownership:
         src, dst, loop = self._region(cfg, f, elem, w)
         key = f.qualname
         n_w = cfg.node_of(w)
+        n_ws = {cfg.node_of(x) for x in (group or [w])}
 
         def every_path(hit: Set[int], excused: Set[int] = frozenset()) -> Optional[List[int]]:
             return cfg.path_avoiding(src, dst, set(hit) | set(excused))
 
         # (a) back-pointer write on every path
-        wit = every_path({n_w})
+        wit = every_path(n_ws)
         self.add("C04", "R03.3", "%s:set-backptr" % key, wit is None, f.loc(w),
                  "a path through %s does not set %s.%s = owner: %s"
                  % (key, elem, bp, _p(cfg, wit)), 2)
@@ -459,7 +471,7 @@ class Ownership:
                  "a path through %s attaches %s without first removing it from the collection "
                  "of its previous owner (%s.%s not None): %s" % (key, elem, elem, bp, _p(cfg, wit)), 3)
         # the removal must happen while the back-pointer still names the old owner
-        bad_order = [p for p in prev if cfg.dominates(n_w, p)]
+        bad_order = [p for p in prev if any(cfg.dominates(x_, p) for x_ in n_ws)]
         self.add("C04", "R03.3", "%s:leave-before-relink" % key, not bad_order, f.loc(w),
                  "%s.%s is overwritten before the element is removed from its previous owner"
                  % (elem, bp), 2)
@@ -557,7 +569,7 @@ class Ownership:
                      "a path through %s links %s to the owner without putting it in the "
                      "collection's store: %s" % (key, elem, _p(cfg, wit)), 2)
 
-    def _detach(self, rel: Relation, f: FuncInfo, w: ast.Assign) -> None:
+    def _detach(self, rel: Relation, f: FuncInfo, w: ast.Assign, group: Optional[List[ast.Assign]] = None) -> None:
         self.functions.add(f.qualname)
         bp = rel.backptr
         me = f.self_name or "self"
@@ -572,6 +584,7 @@ class Ownership:
         key = f.qualname
         src, dst = cfg.entry, cfg.exit
         n_w = cfg.node_of(w)
+        n_ws = {cfg.node_of(x) for x in (group or [w])}
         # early exit: element not a member
         excused: Set[int] = set()
         guard_found = False
@@ -596,7 +609,9 @@ class Ownership:
             if guard_found:
                 # every path to the write passes the 'is a member' outcome
                 member_br = _neg(cfg, excused)
-                wit0 = cfg.path_avoiding(src, n_w, member_br)
+                wit0 = None
+                for x_ in sorted(n_ws):
+                    wit0 = wit0 or cfg.path_avoiding(src, x_, member_br)
                 self.add("C04", "R03.3", "%s:member-guard-dominates" % key, wit0 is None, f.loc(w),
                          "the back-pointer of %s can be cleared on a path where membership was not "
                          "established: %s" % (elem, _p(cfg, wit0)), 2)
@@ -604,7 +619,7 @@ class Ownership:
         def every_path(hit: Set[int], exc2: Set[int] = frozenset()) -> Optional[List[int]]:
             return cfg.path_avoiding(src, dst, set(hit) | excused | set(exc2))
 
-        wit = every_path({n_w})
+        wit = every_path(n_ws)
         self.add("C04", "R03.3", "%s:clear-backptr" % key, wit is None, f.loc(w),
                  "a path through %s removes %s without clearing %s.%s: %s"
                  % (key, elem, elem, bp, _p(cfg, wit)), 2)
